@@ -334,6 +334,9 @@ C03(g, ev, g2) ==
      \* "a refresh may hold one extra connection per refreshing channel until the swap": never two pending replacements of one channel
      Cl("C03_f", NewsOk(ev) # {} /\ ev.op = "done",
                  \A h \in Chans(g2) : Cardinality({c \in DOMAIN g2.conns : g2.conns[c].role = "repl" /\ g2.conns[c].ch = h /\ g2.conns[c].rm = 0}) <= 1),
+     \* a completion may start a replacement only for a channel that is still in the pool (a channel that left it must not come back)
+     Cl("C03_g", NewsOk(ev) # {} /\ ev.op = "done" /\ ev.res # "SKIPPED" /\ ev.n \in DOMAIN g.calls /\ g.calls[ev.n].ch # 0,
+                 g.chans[g.calls[ev.n].ch].inPool),
      Cl("C03_e", CCKinds(ev, "rm") # {},
                  /\ Cardinality(CCKinds(ev, "rm")) = 1
                  /\ ev.op = "state" /\ ev.c \in DOMAIN g.conns /\ g.conns[ev.c].role = "repl" /\ ev.s = "READY"
@@ -397,6 +400,9 @@ C07(g, ev, g2) ==
                      old == g.chans[h].cur
                  IN /\ Cardinality(CCKinds(ev, "rm")) = 1
                     /\ \A i \in CCKinds(ev, "rm") : ev.cc[i].c = old),
+     \* "at that moment the replacement takes over the channel": when the take-over leaves the channel READY, the picker published last serves it
+     Cl("C07_t", isSwap /\ g2.pubs # <<>> /\ Ready(g2, g.conns[ev.c].ch),
+                 g.conns[ev.c].ch \in Last(g2.pubs).ready),
      Cl("C07_e", ev.op \in {"rerr", "advance", "factory"} \/ (IsPickEv(ev) /\ ev.op # "pick"),
                  \* resolver errors, the clock, the factory switch and the delivery of a waiting pick never create connections
                  NewsAll(ev) = {}) }
@@ -472,9 +478,9 @@ Clauses(g, ev, g2) ==
   C01(g, ev, g2) \cup C02(g, ev, g2) \cup C03(g, ev, g2) \cup C04(g, ev, g2) \cup C05(g, ev, g2) \cup C06(g, ev, g2)
   \cup C07(g, ev, g2) \cup C08(g, ev, g2) \cup C09(g, ev, g2) \cup C17(g, ev, g2) \cup C20(g, ev, g2)
 
-ClauseIds == {"C01_a", "C01_b", "C01_d", "C02_a", "C02_b", "C02_d", "C03_a", "C03_b", "C03_c", "C03_d", "C03_e", "C03_f", "C03_s", "C02_s", "C04_s", "C09_s",
+ClauseIds == {"C01_a", "C01_b", "C01_d", "C02_a", "C02_b", "C02_d", "C03_a", "C03_b", "C03_c", "C03_d", "C03_e", "C03_f", "C03_g", "C03_s", "C02_s", "C04_s", "C09_s",
               "C04_a", "C04_b", "C04_c", "C04_e", "C04_f", "C05_a", "C05_b", "C06_a", "C06_b", "C06_d",
-              "C07_a", "C07_b", "C07_c", "C07_e", "C08_a", "C08_b", "C08_e", "C08_h", "C08_h2",
+              "C07_a", "C07_b", "C07_c", "C07_t", "C07_e", "C08_a", "C08_b", "C08_e", "C08_h", "C08_h2",
               "C09_a", "C09_a2", "C09_b", "C09_c", "C09_e", "C17_e", "C17_b", "C17_c", "C17_m", "C20_a", "C20_a2", "C20_b", "C20_c", "C20_d"}
 
 \* descriptors used to match violations against the known-findings file
